@@ -319,7 +319,7 @@ func nonIntLits() []jLit {
 		num("exp", "9223372036854775807e0", true, 9223372036854775807), num("frac", "4294967295.0", true, 4294967295),
 		{Cls: "arr", N: z, Text: "[]"}, {Cls: "arr", N: z, Text: "[1]"}, {Cls: "arr", N: z, Text: `["a"]`},
 		{Cls: "obj", N: z, Text: "{}"}, {Cls: "obj", N: z, Text: `{"a":1}`},
-		str("str", "abc"), str("str", "a b"), str("str", "\x00<&>\"\\é漢\U0001F600"), str("str", "12"), str("str", "true"),
+		str("str", "abc"), str("str", "a b"), str("str", "\x00<&>\"\\é漢\U0001F600"), str("str", "caf\uFFFD"), str("str", "12"), str("str", "true"),
 		str("str", "not base64!"), str("str", "2020-13-01T00:00:00Z"), str("str", "2020-01-01"), str("str", "é"),
 		str("time", "2001-02-03T04:05:06Z"), str("time", "2001-02-03T04:05:06.789012345+02:00"),
 		str("time", "0001-01-01T00:00:00Z"), str("time", "9999-12-31T23:59:59.999999999-14:00"),
